@@ -1,0 +1,7 @@
+//go:build !verif
+
+package tglib
+
+import "github.com/ishidawataru/sctp"
+
+func verifAdopt() *sctp.SCTPConn { return nil }
